@@ -274,6 +274,15 @@ func expandCases(run *ev.Run, lists [][]action) []tcase {
 		if spends(l, acctMulti) {
 			signerChoices = []int{0, 1, 2}
 		}
+		places := []int{placeConfirmed, placeConfirmedFlag, placeUnconfirmedFlag, placeBothFlag}
+		if len(l) >= 3 {
+			// three-action lists: the two pure placements and the signer pairs {0,1} and {1,2}
+			// (every key signs, in first and in last position); lists of <= 2 actions get everything
+			places = []int{placeConfirmed, placeUnconfirmedFlag}
+			if spends(l, acctMulti) {
+				signerChoices = []int{0, 2}
+			}
+		}
 		for f := 0; f < nf; f++ {
 			var fund [2][3]int
 			for a := 0; a < 2; a++ {
@@ -286,7 +295,7 @@ func expandCases(run *ev.Run, lists [][]action) []tcase {
 				fund[s[0]][s[1]] = x % 4
 				x /= 4
 			}
-			for place := 0; place < 4; place++ {
+			for _, place := range places {
 				for _, sg := range signerChoices {
 					cases = append(cases, tcase{List: l, Fund: fund, Place: place, Signers: sg})
 				}
